@@ -91,6 +91,9 @@ pub fn stages(prop: &str, tier: &str) -> Vec<Stage> {
             COp::AmendVia(1, 1, 2),
             COp::AmendVia(2, 1, 8),
             COp::Cancel(3),
+            // amendments to the quantity the order already shows (B1: S10#1, every book: S5#2)
+            COp::Amend(1, 10),
+            COp::Amend(2, 5),
         ]);
         if quick {
             v.push(stage("pairs of 1-op threads, wide alphabet, ten books", programs_1op(2, &books6, &wide), Some(3)));
